@@ -285,6 +285,7 @@ func cmdParse(args []string) error {
 			} `json:"obs"`
 			Cnt  uint64          `json:"cnt"`
 			H    *uint64         `json:"h"`
+			Tr   bool            `json:"tr"`
 			Bud  json.RawMessage `json:"bud"`
 			Seed int             `json:"seed"`
 			Rt   bool            `json:"rt"`
@@ -321,7 +322,7 @@ func cmdParse(args []string) error {
 			}
 			if got.Cnt != 0 && got.Cnt != c.Cnt {
 				add(&steps, "parser steps", c.Cnt, got.Cnt)
-			} else if got.Cnt != 0 && c.H != nil {
+			} else if got.Cnt != 0 && c.H != nil && c.Tr {
 				// same number of steps: the step sequences (kind of expression and position of every step) must be the same too
 				traces++
 				if got.Hash != *c.H {
